@@ -234,6 +234,22 @@ def run(E: Engine, rep: Report, tier: str) -> dict:
     rep.check(slot_attrs == {"tf"} and has(r, "max(Q_a, Q_b)") is not None, "GUARD", "_ChannelSchedule.get_duration|last-slot-tf", "channel duration derives from the slots' tf (max with the pending fall time)", f"channel duration no longer derives from slot end times only: reads {sorted(slot_attrs)}", E.where(cgd))
     rev = any(is_(t, "self.slots[::-1]") is not None or is_(t, "reversed(self.slots)") is not None or is_(t, "self.slots[-1]") is not None for t in sym.subterms(r))
     rep.check(rev, "GUARD", "_ChannelSchedule.get_duration|from-last-slot", "scans from the last slot backwards", "channel duration no longer starts from the last slot", E.where(cgd))
+    # the pending fall time is the latest `tf + fall_time` over EVERY pulse that can still be ramping down: the backward
+    # scan stops only on the `not include_fall_time` shortcut or once a slot ended a whole look-back window before the
+    # channel's end -- never merely because a pulse was met (a short pulse does not hide its predecessor's fall)
+    brks = [l for l in S(E, cgd).log if l.kind == "break" and l.fn == cgd.short]
+    if not brks:
+        rep.excepted("GUARD", "_ChannelSchedule.get_duration|scan-stops-only-at-window", "no break in the scan (written without a loop exit): not decided", E.where(cgd))
+    for i_, l in enumerate(brks):
+        lits_ = sym.conj_of(l.cond)
+        shortcut = sym.mk_not(("name", "include_fall_time")) in lits_
+        window = any(x[0] == "cmp" and x[1] in ("LtE", "GtE", "Lt", "Gt") and mentions(x, "rise_time") and mentions(x, "tf") for x in lits_)
+        rep.check(shortcut or window, "GUARD", f"_ChannelSchedule.get_duration|scan-stops-only-at-window|break{i_}", "break under `not include_fall_time` or under the look-back window test",
+                  f"the backward scan of get_duration stops under `{sh(l.cond, 120)}` -- at the first pulse it meets: a pulse shorter than its predecessor's fall time (added with 'no-delay') hides that pending fall time, the reported at-rest duration drops and wait_for_fall / at_rest delays start early", E.where(cgd, l.node))
+        if window:
+            w_ = next(x for x in lits_ if x[0] == "cmp" and mentions(x, "rise_time") and mentions(x, "tf"))
+            rep.check(mentions(w_, "eom_config"), "GUARD", f"_ChannelSchedule.get_duration|window-uses-eom-rise-time-in-eom-mode|break{i_}", "the look-back window is 2 * (EOM rise time in EOM mode, channel rise time otherwise)",
+                      f"the look-back window `{sh(w_, 100)}` uses the channel's rise time only, while in EOM mode the fall time of a pulse is computed with the EOM's (possibly slower) rise time: behind plain delays a pending fall time longer than the window is lost", E.where(cgd, l.node))
     rep.floor("GUARD", 4)
     return {"slot_write_sites": n_sites, "functions_analysed": len(P.functions), "call_sites": getattr(E, "_n_call_events", 0)}
 
